@@ -43,6 +43,8 @@ class Exec:
     def alloc(s, n, kind, site=None):
         if kind == 'stack':
             base = s.stack; s.stack += (n + 31) // 16 * 16 + 16
+        elif type(n) is not int:
+            base = s.heap; s.heap += (1 << 32)          # symbolic size: reserve address space for the stated maximum
         else:
             base = s.heap; s.heap += (n + 31) // 16 * 16 + 32
         # stack addresses < heap addresses; keep a single sorted list: stack entries inserted before heap ones
@@ -62,6 +64,10 @@ class Exec:
             i = bisect.bisect_right(s.abase, a) - 1
             if i >= 0:
                 inf = s.ainfo[i]
+                if type(inf[0]) is not int:      # block of symbolic size (bounded symbolic allocation): containment is a solver query
+                    if s.feasible(z3.UGT(z3.BitVecVal(a + n - s.abase[i], 64), inf[0])):
+                        raise Violation('memory', 'out-of-bounds %s of %d bytes at offset %d of a block whose size can be smaller (allocated at %s)' % ('write' if write else 'read', n, a - s.abase[i], inf[3]))
+                    return
                 if a + n <= s.abase[i] + inf[0]:
                     if not inf[1]: raise Violation('memory', ('use after free' if inf[2] != 'stack' else 'use of dead stack slot') + ' at %#x (block of %d bytes allocated at %s)' % (a, inf[0], inf[3]))
                     h = s.hooks.get('access')
@@ -374,13 +380,17 @@ class Exec:
             elif op == 'gep':
                 _, dst, base, coff, steps = ins
                 a = regs[base] if type(base) is str else base
-                if type(a) is not int: a = s.concretize(a, 'address')
-                a += coff
+                symgep = s.B.get('symgep')
+                if type(a) is not int and not symgep: a = s.concretize(a, 'address')
+                a = a + coff
                 for (ix, ib, stride) in steps:
                     x = regs[ix] if type(ix) is str else ix
-                    if type(x) is not int: x = s.concretize(x, 'index')
-                    a += sx(x, ib) * stride
-                regs[dst] = a & M64
+                    if type(x) is not int:
+                        if symgep:      # keep the address as a term; it is resolved only if something is accessed through it
+                            a = bv(a & M64 if type(a) is int else a, 64) + (z3.SignExt(64 - ib, x) if ib < 64 else x) * stride; continue
+                        x = s.concretize(x, 'index')
+                    a = a + sx(x, ib) * stride
+                regs[dst] = a & M64 if type(a) is int else z3.simplify(a)
             elif op == 'store':
                 _, n, b, v, ptr = ins
                 a = regs[ptr] if type(ptr) is str else ptr
@@ -646,7 +656,18 @@ class Exec:
             if m is not None:
                 nd = [m.eval(v, model_completion=True).as_long() for v in s.nond if str(v).startswith('nd_')]
         stack = [f.code.name for f in s.frames[-6:]]
-        s.violations.append(dict(kind=kind, msg=msg, aid=aid, nd=nd, dec=list(s.dec), stack=stack))
+        hashes = []
+        if s.concrete is None and s.extra.get('hash_syms'):
+            # the counterexample may rely on hash values chosen by the solver (equal-hash neighbours): record them so that the
+            # native replay can interpose std::_Hash_bytes with exactly these values
+            m = model if model is not None else s.get_model()
+            if m is not None:
+                for (n, arg, hv) in s.extra['hash_syms']:
+                    try:
+                        a = m.eval(arg, model_completion=True).as_long(); h = m.eval(hv, model_completion=True).as_long()
+                        hashes.append((a.to_bytes(n, 'big').hex(), h))
+                    except Exception: pass
+        s.violations.append(dict(kind=kind, msg=msg, aid=aid, nd=nd, dec=list(s.dec), stack=stack, hashes=hashes))
         s.events.append(('violation', kind, aid))
 
     def explore(s, entry, prefix=(), split_depth=None, max_paths=None, on_path=None):
